@@ -61,8 +61,9 @@ PROP = {
         "entry shapes: Group/Value (first bin first, later bins same key, commands on the key - `cmdKey` takes the second argument "
         "for XGROUP) are hypotheses about loader output, not checked on real entries; module values and streams are not generated "
         "(C03 covers their expansion)",
-        "replaceHashTag off (with it on, the plain expansion path probes/deletes/expires the rewritten key while the native "
-        "commands still carry the original key - noticed while transcribing, outside this property's quantifier)",
+        "replaceHashTag: modelled as replaying `retag e` (target key = key without its first '{' and first '}', key argument of the "
+        "native commands rewritten) on both paths; exercised with tagged keys ({t}k, k{t}, a{k}z, }k{, {{k}}, {k, {}k), split "
+        "values and the rewritten / the unrewritten name pre-populated (exhaustive 162-case scope per mode + 1/4 of the random cases)",
         "later chunks carry the key's expiry or none (Value.exp): holds for the loader before and after the D8 repair",
     ],
     "partial": [],
@@ -77,6 +78,6 @@ MANIFEST = {
             "to the real code by request-by-request correspondence against the target double with pre-populated keys; an "
             "independent Go monitor checks the property itself on the real code's final keyspace.",
     "note": "trusted: Lean kernel, transcribed Redis semantics of the few commands used, target double, harness; models of the "
-            "REPAIRED code (D7, D21, D24, D25 fixed)",
+            "REPAIRED code (D7, D21, D24, D25, D27 fixed)",
     "technique": "Lean 4 proof (induction over the chunk list, per-key object semantics, frame lemmas) + differential correspondence + monitor",
 }
